@@ -497,3 +497,56 @@ func ReachableFromEntryAvoidingEdges(target ssa.Instruction, avoid func(ssa.Inst
 	}
 	return false
 }
+
+// SilentSkip explores the loop body that starts at `body` and reports whether
+// the loop head block can be reached again without executing any sink
+// instruction and without taking an edge accepted by allowed (a legitimate
+// skip). It returns the position-bearing instruction of the offending branch.
+func SilentSkip(body, head *ssa.BasicBlock, sink func(ssa.Instruction) bool, allowed func(iff *ssa.If, branch bool) bool) (bool, ssa.Instruction) {
+	seen := map[*ssa.BasicBlock]bool{}
+	var last ssa.Instruction
+	var walk func(b *ssa.BasicBlock) bool
+	walk = func(b *ssa.BasicBlock) bool {
+		if b == head {
+			return true
+		}
+		if seen[b] {
+			return false
+		}
+		seen[b] = true
+		for _, in := range b.Instrs {
+			if sink(in) {
+				return false
+			}
+		}
+		if len(b.Instrs) == 0 {
+			return false
+		}
+		term := b.Instrs[len(b.Instrs)-1]
+		if iff, ok := term.(*ssa.If); ok && len(b.Succs) == 2 {
+			for k, br := range []bool{true, false} {
+				if allowed(iff, br) {
+					continue
+				}
+				if walk(b.Succs[k]) {
+					if last == nil {
+						last = iff
+					}
+					return true
+				}
+			}
+			return false
+		}
+		for _, s := range b.Succs {
+			if walk(s) {
+				if last == nil {
+					last = term
+				}
+				return true
+			}
+		}
+		return false
+	}
+	r := walk(body)
+	return r, last
+}
